@@ -180,6 +180,11 @@ func runC17(c *fw.Case) (o fw.Outcome) {
 				}
 				v6 = ip6.String()
 			}
+			if v4 != "" && v6 == "" && r.Intn(5) == 0 { // IPv4 written in an IPv4-mapped notation is still that IPv4 address
+				ip := net.ParseIP(v4).To4()
+				v4 = pick(r, "::ffff:"+v4, fmt.Sprintf("::ffff:%02x%02x:%02x%02x", ip[0], ip[1], ip[2], ip[3]))
+				o.Count("ipv4_in_mapped_notation", 1)
+			}
 			if !c17Pair(&o, v4, v6) {
 				return
 			}
@@ -205,8 +210,32 @@ func runC17(c *fw.Case) (o fw.Outcome) {
 				n = 0
 			}
 			want := []byte{0x80}
+			var aimedLens []int
+			if i >= 1 && i <= 3 { // lists whose encoding has an exact total length: up to the 65535 octets an extended PCO IE can carry
+				T := []int{255, 256, 257, 2047, 2048, 4095, 4096, 32767, 32768, 65533, 65534, 65535, 65535, 65535}[(blk*3+i)%14]
+				rem := T - 1
+				for rem > 3+255+3+255 {
+					l := pick(r, 255, 255, 255, 200+r.Intn(56))
+					aimedLens = append(aimedLens, l)
+					rem -= 3 + l
+				}
+				if rem-3 <= 255 {
+					aimedLens = append(aimedLens, rem-3)
+				} else {
+					l1 := (rem - 6) / 2
+					aimedLens = append(aimedLens, l1, rem-6-l1)
+				}
+				if r.Intn(2) == 0 && aimedLens[len(aimedLens)-1] >= 1 { // ... ending in an EMPTY unit
+					aimedLens[len(aimedLens)-1] -= 0
+				}
+				n = len(aimedLens)
+				o.Tag(fmt.Sprintf("pco-total=%d", T))
+			}
 			for u := 0; u < n; u++ {
 				l := pick(r, 0, 1, 2, 4, 16, 255, r.Intn(256))
+				if aimedLens != nil {
+					l = aimedLens[u]
+				}
 				id := uint16(r.Intn(1 << 16))
 				cont := rbytes(r, l)
 				if r.Intn(2) == 0 { // the identifiers TS 24.008 10.5.6.3 assigns (PPP protocols and additional parameters)
